@@ -1064,7 +1064,8 @@ def scanNumber (l : Lexer) : Option (ItemType × Bool × Lexer) := do
     -- Hexadecimal.
     if hasSign then pure (.tInteger, false, l) -- No signs for hexadecimals.
     else do
-      let (_, l) ← acceptRun l [48, 120]
+      -- `l.pos += 2`: exactly the two bytes of the prefix (7a9e4b4; it was acceptRun("0x"))
+      let l : Lexer := { l with pos := l.pos + 2 }
       let (ok, l) ← acceptRun l hexDigits
       if !ok then pure (.tInteger, false, l) -- Requires at least one digit.
       else do
